@@ -2,7 +2,7 @@
 """Regenerate /verif/MANIFEST.json. Edit IMPLEMENTED / texts here, not the JSON."""
 import json, re, os, subprocess
 ROOT = os.path.dirname(os.path.dirname(os.path.abspath(__file__)))
-IMPLEMENTED = os.environ.get("IMPLEMENTED", "C01 C03 C04 C05 C07 C09").split()
+IMPLEMENTED = os.environ.get("IMPLEMENTED", "C01 C03 C04 C05 C06 C07 C09 C20").split()
 
 design = open(os.path.join(ROOT, "DESIGN.md")).read()
 na = {}
